@@ -119,11 +119,11 @@ K_WS_PROTO = dict(
     unit='ws_proto', package='aquatic_ws_protocol',
     inject=[('crates/ws_protocol/src/common.rs', 'common_harness.rs')],
     harnesses=[
-        dict(name='common::verif_kani::visit_str_exact', complete=False, bound='strings of <= 22 arbitrary chars', timeout=1200,
+        dict(name='common::verif_kani::visit_str_exact', complete=False, bound='strings of <= 21 chars from U+0000..U+00FF plus a 256-char window above', timeout=1200,
              tags=['C15.ident.too_short', 'C15.ident.too_long', 'C15.ident.out_of_range', 'C15.ident.value', 'C15.ident.accept', 'C12.ws_proto.visit_str'],
              functions=['TwentyByteVisitor::visit_str']),
         dict(name='common::verif_kani::serialize_exact_and_roundtrip', complete=True, timeout=1200,
-             tags=['C15.ident.encode.ok', 'C15.ident.encode.utf8', 'C15.ident.encode.chars', 'C15.ident.encode.len', 'C15.ident.roundtrip'],
+             tags=['C15.ident.encode.ok', 'C15.ident.encode.chars', 'C15.ident.encode.len', 'C15.ident.roundtrip'],
              functions=['serialize_20_bytes', 'TwentyByteVisitor::visit_str']),
     ],
 )
@@ -227,6 +227,14 @@ PROPS = {
         claim='UDP: AccessList::allows equals the reference decision for every mode/list/hash; no announce reaches swarm state unless the list in force allows the hash, and a forbidden hash gets an error reply carrying the transaction id.',
         note='http/ws gates live in async fns (not reached); reload and cleaning are decided by other units where present.',
     ),
+    'C12': dict(
+        verus=['udp_swarm', 'udp_handler', 'http_swarm', 'ws_swarm'], kani=[K_UDP_PROTO, K_WS_PROTO, K_HTTP_PROTO], level='other',
+        technique='Verus: absence of overflow / out-of-range index / failing unwrap in every extracted request-handling function for all inputs; Kani default checks on the real parsers with symbolic bytes',
+        claim='Every request-handling function under contract (udp/http/ws swarm and udp handlers) is proved free of arithmetic overflow, out-of-bounds indexing and failing unwrap/expect for all field values (numwant i32::MIN, left < 0, max_response_peers 0/1, ...); the udp request parser, the ws identifier decoder and the http identifier decoder are panic-free on all inputs up to the stated lengths.',
+        explanation='partial by construction: allocation bounds, httparse, the memchr query splitter and serde_json / simd-json / serde_bencode are not reached; parser harnesses are bounded by input length.',
+        note='preconditions of the proved functions are type invariants (wf) and nothing about request fields.',
+        not_reached=['allocation bound (no heap model)', 'httparse, memchr splitter (runtime CPU detection)', 'serde_json / simd-json / serde_bencode', 'aquatic_peer_id regexes', 'udp Response::parse_bytes (client side)'],
+    ),
     'C13': dict(
         verus=[], kani=[K_UDP_PROTO], level='proof',
         technique='Kani/CBMC harnesses on the real udp_protocol parser/writers against an independent BEP 15 byte-layout oracle (symbolic datagrams)',
@@ -248,6 +256,16 @@ PROPS = {
         explanation='partial: only the identifier codec is under contract; the memchr-driven query splitter, the bencode reply writers and the serde_bencode reader are not reached by this check.',
         note='anyhow error construction runs for real except format!, which is stubbed.',
         not_reached=['AnnounceRequest/ScrapeRequest::parse_query_string (memchr runtime CPU detection)', 'Response::parse_bytes (serde_bencode)', 'reply writers vs independent bencode encoder'],
+    ),
+    'C18': dict(
+        verus=['buffers'], kani=[], level='other',
+        explanation='deductive: 11 arithmetic lemmas (tracker x back end x reply kind) over constants extracted from the source; 4 are proved, 7 fail and are genuine, demonstrated defects listed in known_findings.json (reported as KNOWN-FINDING, exit 0); any other failing lemma is a new violation.',
+        technique='Verus arithmetic lemmas over buffer constants extracted from the source: for every accepted configuration and every reply the limits allow, the serialised length is at most the fixed buffer',
+        claim='Per tracker x back end x reply kind, the lemma "accepted configuration => worst-case reply length <= buffer" is either proved (connect and scrape replies of both UDP back ends) or fails and is a listed finding (UDP announce replies under an unbounded max_response_peers; HTTP announce and scrape replies, the latter already with the default configuration).',
+        note='reply lengths are the BEP 15 / bencode layouts (decided by C13 / C14 on the real writers); list lengths are bounded by C02 / C06 / C07; "accepted" is what run() validates today (nothing: anchored by ABSENT directives, so that added validation makes the unit undecided instead of raising a stale alarm).',
+        assumptions=['udp reply = 16 / 20+6n / 20+18n / 8+12m bytes; http scrape entry >= 70 bytes (from the writers, see C13/C14)',
+                     'a scrape request must fit REQUEST_BUF_LEN (io_uring) / REQUEST_BUFFER_SIZE (http)'],
+        not_reached=['send_response / prepare_entry / write_response glue (I/O)', 'ws tracker (no fixed reply buffer)'],
     ),
     'C20': dict(
         verus=[], kani=[K_UDP_SWARM], level='other',
